@@ -85,6 +85,7 @@ func (u *decodeUnit) cycle(cycle int, app risc.Application) {
 		}
 		if runner.InstructionType() == risc.Ret {
 			u.ret = true
+			return
 		}
 	}
 }
